@@ -56,6 +56,14 @@ struct F2
   int operator()(int a, SI& s) const;
 };
 
+// functor with a slot bound BY VALUE: bind(F3(fid), copy_of(*S')) — the copy lives in the functor
+struct F3
+{
+  F f;
+  explicit F3(int fid) : f(fid) {}
+  int operator()(int a, SI& s) const;
+};
+
 // heap object that has a slot variable as its (owned) member
 struct Holder
 {
@@ -161,6 +169,8 @@ struct Interp
     for (size_t i = 1; i < w.size(); ++i)
       if (w[i] < '0' || w[i] > '9')
         return false;
+    if (w.size() > 7)
+      return false; // names >= 1000000 are not program variables
     n = std::atoi(w.c_str() + 1);
     return true;
   }
@@ -190,6 +200,8 @@ struct Interp
     if (sp.kind == "mem" && p.size() == 3)
       return nat(p[1], sp.fid) && name(p[2], 'T', sp.t);
     if (sp.kind == "sref" && p.size() == 3)
+      return nat(p[1], sp.fid) && name(p[2], 'S', sp.s);
+    if (sp.kind == "nest" && p.size() == 3)
       return nat(p[1], sp.fid) && name(p[2], 'S', sp.s);
     if (sp.kind == "own" && p.size() == 3)
       return nat(p[1], sp.fid) && name(p[2], 'S', sp.s);
@@ -241,6 +253,8 @@ struct Interp
         return "dead";
       return owned(sp.s) ? "owned" : "";
     }
+    if (sp.kind == "nest")
+      return slots.count(sp.s) ? "" : "dead";
     // own
     if (!slots.count(sp.s))
       return "dead";
@@ -257,6 +271,14 @@ struct Interp
       return SI(sigc::bind(sigc::mem_fun(*trks[sp.t], &Trk::run), F(sp.fid)));
     if (sp.kind == "sref")
       return SI(sigc::bind(F2(sp.fid, sp.s), std::ref(*slots[sp.s])));
+    if (sp.kind == "nest")
+    {
+      // { slot p(*S'); S = slot(bind(F3(fid), p)); }  — the named temporary p makes the order of the copies
+      // independent of when the compiler destroys by-value parameters: p is copy-constructed first (its functor is
+      // offered every free parent_ link of the slot variables it refers to) and dies last.
+      SI p(*slots[sp.s]);
+      return SI(sigc::bind(F3(sp.fid), p));
+    }
     // own: share the holder of S' (created on first use)
     std::shared_ptr<Holder> h = holders[sp.s].lock();
     if (!h)
@@ -598,6 +620,20 @@ F2::~F2()
   g_f2s.erase(this);
 }
 int F2::operator()(int a, SI& s) const
+{
+  int fid = f.fid;
+  logcall(fid, a);
+  int r = 0;
+  if (g->depth < MAXD)
+  {
+    ++g->depth;
+    r = s(a);
+    --g->depth;
+  }
+  return (fid * 10 + a + r) % 97;
+}
+
+int F3::operator()(int a, SI& s) const
 {
   int fid = f.fid;
   logcall(fid, a);
